@@ -194,6 +194,7 @@ SKELS = [
     ['def', ' f', '(', ')', ':', '\n', '    ', 'x', ' =', ' 1', ';', ' global', ' x', ';', ' break', '\n', '    ', 'continue', '\n'],
     ['f', '(', 'a', ',', ' k', '=', '1', ',', ' *', 'x', ')', '\n', 'class', ' C', '(', 'B', ',', ' m', '=', '1', ')', ':', ' pass', '\n'],
     ['a', ' =', ' 1', '\n', 'x', ' =', ' [', '\n', '    1', ',', '\n', ']', '          #comment', '\n', 'y', ' =', ' 2', '\n'],
+    ['x', ' =', ' 12345', '\n', 'yy', ' =', ' 123', '\n', 'z', '=', '1234567', '\n'],
     ['\ufeff', 'x', ' =', ' (', '1', ',', '\n', ' 2', ')', '\n', '\n', '\n', '\n', 'y', '=', '1'],
 ]
 _EXTRA = ['', 'a', '1', "'s'", '$', '\n', '\n    ', '\n  ', 'f"', "f'", '"', "'", '"""', '\\\n', '#c\n', '?', '1.', '0x', 'é', '²',
